@@ -102,6 +102,15 @@ class DlHistories(Stream):
             sc["kint"], sc["kenc"] = [("00" * 16, "00" * 16), ("00" * 16, rng.bytes(16).hex()), (rng.bytes(16).hex(), "00" * 16), ("ff" * 16, "ff" * 16)][j % 4]
             sc["kind"] = "boundary-keys"
             scs.append(sc)
+        # a new security context taken into use exactly when the sequence number has wrapped (COUNT 256k, SQN 0, then SQN 0 again
+        # under the new context)
+        for j, (ia, ea) in enumerate([(2, 2), (1, 1), (2, 0)] if quick else L.PAIRS):
+            sc = scenario(rng, ia, ea, "octet", 0, False)
+            k256 = [256, 512, 65536][j % 3]
+            sc["spec"]["last0"], sc["spec"]["ovf0"], sc["spec"]["sqn0"] = k256 - 1, ((k256 - 1) >> 8) & 0xffff, (k256 - 1) & 0xff
+            sc["spec"]["items"] = [[L.pick_msg(rng, True).hex(), 2, 1], [L.pick_msg(rng, True).hex(), [3, 4][j % 2], 1], [L.pick_msg(rng, True).hex(), 2, 1], [L.pick_msg(rng, True).hex(), 2, 1]]
+            sc["kind"] = "new-context-at-wrap"
+            scs.append(sc)
         scs += self.plain_looking(rng)
         return reference_packets(scs)
 
